@@ -235,6 +235,10 @@ func (ms MatrixSetup) MarshalJSON() ([]byte, error) {
 // MarshalYAML returns either a Scalars (if the setup is a single anonymous
 // dimension) or a map (if it contains one or more (named) dimensions).
 func (ms MatrixSetup) MarshalYAML() (any, error) {
+	if ms == nil {
+		// null, like the JSON form (a typed nil map would be written as {}).
+		return nil, nil
+	}
 	if len(ms) == 1 && len(ms[""]) > 0 {
 		return ms[""], nil
 	}
@@ -338,6 +342,10 @@ func (maw MatrixAdjustmentWith) MarshalJSON() ([]byte, error) {
 
 // MarshalYAML returns either a single scalar or a map.
 func (maw MatrixAdjustmentWith) MarshalYAML() (any, error) {
+	if maw == nil {
+		// null, like the JSON form (a typed nil map would be written as {}).
+		return nil, nil
+	}
 	if _, has := maw[""]; has && len(maw) == 1 {
 		return maw[""], nil
 	}
